@@ -188,20 +188,34 @@ Lemma forced_failure_cleans_up ex1 saveok ex2 :
   snd (last (states saveok (true, false) (fst (forced ex1 saveok ex2))) (true, false)) = false.
 Proof. destruct ex1, saveok, ex2; cbn; intros H; try reflexivity; discriminate. Qed.
 
+(* a forced refresh that reports success ends with the replacement lock file in place, and success needs the
+   old lock file at BOTH existence checks: a lock that vanished in between is a failure (errRemovedLock) *)
+Lemma forced_success_has_file ex1 saveok ex2 :
+  snd (forced ex1 saveok ex2) = true ->
+  ex1 = true /\ ex2 = true /\
+  snd (last (states saveok (true, false) (fst (forced ex1 saveok ex2))) (true, false)) = true.
+Proof. destruct ex1, saveok, ex2; cbn; intros H; try discriminate; auto. Qed.
+
+Lemma vanished_between_checks_fails saveok :
+  forced true saveok false = (if saveok then [OFreeze; OList; OSave; OWait; OList; ORemoveNew; OCancel; OUnfreeze]
+                               else [OFreeze; OList; OSave; OCancel; OUnfreeze], false).
+Proof. destruct saveok; reflexivity. Qed.
+
 (* ---- oracle ---- *)
 Lemma check_C13_spec k :
   check_C13 k = true <->
   (forall x, In x (c_samples k) -> s_alive x = true ->
      (forall f, s_newest x = Some f -> s_t x - f < bound (c_cfg k)) /\
      (s_extrem x = false -> s_newest x <> None)) /\
-  c_left_behind k = 0 /\ (forall b, In b (c_forced_after_removal k) -> b = true).
+  c_left_behind k = 0 /\ (forall b, In b (c_forced_after_removal k) -> b = true) /\
+  (forall b, In b (c_forced_ok_has_file k) -> b = true).
 Proof.
   unfold check_C13. rewrite !andb_true_iff, !forallb_forall, Z.eqb_eq. split.
-  - intros [[[H1 H2] H3] H4]. repeat split; auto.
+  - intros [[[[H1 H2] H3] H4] H5]. repeat split; auto.
     + intros f Hf. specialize (H1 x H). unfold sample_fresh in H1. rewrite H0, Hf in H1.
       apply Z.ltb_lt in H1. assumption.
     + intros He Hn. specialize (H2 x H). unfold sample_has_file in H2. rewrite H0, He, Hn in H2. discriminate.
-  - intros [H1 [H3 H4]]. repeat split; auto.
+  - intros [H1 [H3 [H4 H5]]]. repeat split; auto.
     + intros x Hx. unfold sample_fresh. destruct (s_alive x) eqn:Ea; [|reflexivity].
       destruct (s_newest x) as [f|] eqn:En; [|reflexivity]. apply Z.ltb_lt. apply (proj1 (H1 x Hx Ea)). exact En.
     + intros x Hx. unfold sample_has_file. destruct (s_alive x) eqn:Ea; [|reflexivity].
